@@ -145,9 +145,33 @@ func c09Recv(c net.Conn, v *c09Verifier, want int64, slow bool) error {
 	return nil
 }
 
+// progressConn gives every read and write its own 40s: a stream counts as stuck when it makes no progress for that long,
+// however long the whole transfer takes (64 MiB in 100-byte writes with pauses is slow, not stuck).
+type progressConn struct {
+	net.Conn
+}
+
+func (p progressConn) Read(b []byte) (int, error) {
+	p.Conn.SetReadDeadline(time.Now().Add(40 * time.Second))
+	return p.Conn.Read(b)
+}
+
+func (p progressConn) Write(b []byte) (int, error) {
+	p.Conn.SetWriteDeadline(time.Now().Add(40 * time.Second))
+	return p.Conn.Write(b)
+}
+
+func (p progressConn) CloseWrite() error {
+	if cw, ok := p.Conn.(interface{ CloseWrite() error }); ok {
+		return cw.CloseWrite()
+	}
+	return p.Conn.Close()
+}
+
 func (u *c09Upstream) handle(c net.Conn) {
 	defer c.Close()
-	c.SetDeadline(time.Now().Add(40 * time.Second))
+	rawc := c
+	c = progressConn{c}
 	br := bufio.NewReaderSize(c, 128<<10)
 	var proxyLine string
 	var hello []byte
@@ -234,7 +258,7 @@ func (u *c09Upstream) handle(c net.Conn) {
 	r := rand.New(rand.NewSource(int64(sp.SeedU)))
 	ver := &c09Verifier{seed: sp.SeedC}
 	tc, _ := c.(interface{ CloseWrite() error })
-	if rb, ok := c.(*net.TCPConn); ok && sp.SlowRead {
+	if rb, ok := rawc.(*net.TCPConn); ok && sp.SlowRead {
 		rb.SetReadBuffer(4096)
 	}
 	rd := &bufReaderConn{Conn: c, br: br}
@@ -411,6 +435,9 @@ func c09Tunnels(c *ctx) {
 				if sp.WriteMax < 100 && sp.C2U+sp.U2C > 300000 {
 					sp.WriteMax = 1400
 				}
+				if sp.WriteMax < 4096 && sp.C2U+sp.U2C > 4<<20 {
+					sp.WriteMax = 16 << 10 // tens of megabytes in 100-byte writes only measure the harness
+				}
 				sp.Pause = r.Intn(4) == 0
 				sp.SlowRead = r.Intn(5) == 0 && sp.C2U+sp.U2C < 1<<20
 				sp.Close = choose(r, []string{"client-closes", "client-closes", "upstream-closes-first", "client-halfclose", "upstream-halfclose"})
@@ -469,11 +496,11 @@ func c09Conn(c *ctx, rg *c09Rig, sp *c09Spec, hello map[string][]byte, r *rand.R
 	defer conn.Close()
 	rawTCP := conn.(*net.TCPConn)
 	rawTCP.SetNoDelay(true)
-	conn.SetDeadline(time.Now().Add(40 * time.Second))
 	if sp.SlowRead {
 		rawTCP.SetReadBuffer(4096)
 	}
-	var tc interface{ CloseWrite() error } = rawTCP
+	conn = progressConn{conn}
+	var tc interface{ CloseWrite() error } = progressConn{rawTCP}
 	if sp.Kind == "tcp-tls" {
 		// fabio terminates TLS on this listener; a TLS 1.2 client sends its last record and close_notify back to back
 		tconn := tls.Client(conn, &tls.Config{InsecureSkipVerify: true, MaxVersion: choose(r, []uint16{tls.VersionTLS12, tls.VersionTLS12, tls.VersionTLS13})})
